@@ -41,6 +41,9 @@ for d in sys.argv[1:]:
         ('org/notes.go','func (n *Note) SameAs(n2 *Note) bool {\n\treturn n.Key','func (n *Note) SameAs(n2 *Note) bool {\n\tif n == nil || n2 == nil {\n\t\treturn n == n2\n\t}\n\treturn n.Key'),
         ('tax/tax.go','\tif doc == nil {\n\t\treturn\n\t}\n\tif n, ok := doc.(normalizeImpl); ok {','\tif doc == nil {\n\t\treturn\n\t}\n\tif v := reflect.ValueOf(doc); v.Kind() == reflect.Ptr && v.IsNil() {\n\t\treturn // nothing to normalize, e.g. a null entry in an array\n\t}\n\tif n, ok := doc.(normalizeImpl); ok {'),
         ('tax/regime_def.go','if v.Since.IsValid() && !v.Since.Before(date.Date)','if v.Since != nil && v.Since.IsValid() && !v.Since.Before(date.Date)'),
+        ('num/amount.go','func unquote(value []byte) []byte {\n\t// If the amount is quoted, strip the quotes\n\tif len(value) > 2 && value[0] == \'"\' && value[len(value)-1] == \'"\' {\n\t\tvalue = value[1 : len(value)-1]\n\t}\n\treturn value\n}\n',
+         'func unquote(value []byte) []byte {\n\t// If the amount is quoted, use the contents of the string: decoding it,\n\t// as opposed to just stripping the quotes, deals with escaped characters.\n\tvar s string\n\tif err := json.Unmarshal(value, &s); err != nil {\n\t\treturn value // not a string, e.g. a plain number\n\t}\n\tif s == "" {\n\t\treturn value // nothing inside the quotes (or null)\n\t}\n\treturn []byte(s)\n}\n'),
+        ('num/amount.go','import (\n\t"errors"','import (\n\t"encoding/json"\n\t"errors"'),
     ]:
         if f in files:
             s=open(f'{W}/{f}').read()
